@@ -388,32 +388,7 @@ func (in *interp) strEq(x, y value) *Term {
 		}
 	}
 	if hasAtom {
-		// equal structure required: same positions of atoms and same verbs
-		if len(ex) != len(ey) {
-			panic(unsupported{"equality of atom strings with different structure"})
-		}
-		r := tp.Bool(true)
-		for i := range ex {
-			a1, ok1 := ex[i].(*Atom)
-			a2, ok2 := ey[i].(*Atom)
-			if ok1 != ok2 {
-				panic(unsupported{"equality of atom strings with different structure"})
-			}
-			if ok1 {
-				if a1.Verb != a2.Verb || a1.K != a2.K {
-					panic(unsupported{"equality of atoms with different verbs"})
-				}
-				if i > 0 {
-					if _, prev := ex[i-1].(*Atom); prev {
-						panic(unsupported{"adjacent numeral atoms are ambiguous"})
-					}
-				}
-				r = tp.And(r, tp.Eq(a1.T, a2.T))
-			} else {
-				r = tp.And(r, tp.Eq(in.termOf(ex[i]), in.termOf(ey[i])))
-			}
-		}
-		return r
+		return in.atomStrEq(ex, ey)
 	}
 	if len(ex) != len(ey) {
 		return tp.Bool(false)
@@ -421,6 +396,110 @@ func (in *interp) strEq(x, y value) *Term {
 	r := tp.Bool(true)
 	for i := range ex {
 		r = tp.And(r, tp.Eq(in.termOf(ex[i]), in.termOf(ey[i])))
+		if r.isFalse() {
+			return r
+		}
+	}
+	return r
+}
+
+// Equality of strings containing numeral atoms (decimal renderings of symbolic
+// unsigned numbers). Both strings are cut into segments: runs of concrete
+// non-digit bytes, runs of concrete digit bytes, and atoms. A numeral is
+// delimited on both sides by a non-digit (or the string end), so two strings are
+// equal iff their segment lists align: equal non-digit runs, and numeral vs
+// numeral equal in value. An atom adjacent to a digit run or to another atom has
+// no unique reading and is reported as unsupported (this is also what a missing
+// separator in a cache key looks like).
+type atomSeg struct {
+	kind int // 0 non-digit literal, 1 digit literal, 2 atom
+	lit  []byte
+	atom *Atom
+}
+
+func (in *interp) atomSegments(e []value) []atomSeg {
+	var segs []atomSeg
+	for _, x := range e {
+		switch v := x.(type) {
+		case byte:
+			k := 0
+			if v >= '0' && v <= '9' {
+				k = 1
+			}
+			if n := len(segs); n > 0 && segs[n-1].kind == k {
+				segs[n-1].lit = append(segs[n-1].lit, v)
+			} else {
+				segs = append(segs, atomSeg{kind: k, lit: []byte{v}})
+			}
+		case *Atom:
+			if kindSigned(v.K) {
+				panic(unsupported{"comparison of a string containing a signed numeral atom"})
+			}
+			if v.Verb != "%d" && v.Verb != "%v" {
+				panic(unsupported{"comparison of a string containing a numeral atom with verb " + v.Verb})
+			}
+			segs = append(segs, atomSeg{kind: 2, atom: v})
+		default:
+			panic(unsupported{"comparison of a string mixing numeral atoms and symbolic bytes"})
+		}
+	}
+	for i := 1; i < len(segs); i++ {
+		if segs[i].kind != 0 && segs[i-1].kind != 0 {
+			panic(unsupported{"ambiguous numeral boundary: a numeral atom is adjacent to digits or to another atom (missing separator?)"})
+		}
+	}
+	return segs
+}
+
+func (in *interp) atomStrEq(ex, ey []value) *Term {
+	tp := in.tp
+	sx, sy := in.atomSegments(ex), in.atomSegments(ey)
+	if len(sx) != len(sy) {
+		return tp.Bool(false)
+	}
+	r := tp.Bool(true)
+	for i := range sx {
+		a, b := sx[i], sy[i]
+		switch {
+		case a.kind == 0 || b.kind == 0:
+			if a.kind != b.kind || string(a.lit) != string(b.lit) {
+				return tp.Bool(false)
+			}
+		case a.kind == 1 && b.kind == 1:
+			if string(a.lit) != string(b.lit) {
+				return tp.Bool(false)
+			}
+		case a.kind == 2 && b.kind == 2:
+			wa, wb := a.atom.T.Sort.W, b.atom.T.Sort.W
+			w := max(wa, wb)
+			r = tp.And(r, tp.Eq(tp.ZeroExt(w-wa, a.atom.T), tp.ZeroExt(w-wb, b.atom.T)))
+		default:
+			at, lit := a.atom, b.lit
+			if a.kind == 1 {
+				at, lit = b.atom, a.lit
+			}
+			// canonical decimal: no leading zeros
+			if len(lit) > 1 && lit[0] == '0' {
+				return tp.Bool(false)
+			}
+			if len(lit) > 20 {
+				return tp.Bool(false)
+			}
+			var v uint64
+			ovf := false
+			for _, c := range lit {
+				nv := v*10 + uint64(c-'0')
+				if nv/10 != v {
+					ovf = true
+				}
+				v = nv
+			}
+			w := at.T.Sort.W
+			if ovf || (w < 64 && v > mask(w)) {
+				return tp.Bool(false)
+			}
+			r = tp.And(r, tp.Eq(at.T, tp.BV(v, w)))
+		}
 		if r.isFalse() {
 			return r
 		}
@@ -476,7 +555,7 @@ func (in *interp) conv(tDst, tSrc types.Type, x value) value {
 		if ud, ok := tDst.Underlying().(*types.Basic); ok && ud.Kind() == types.String {
 			sym := false
 			for _, e := range xv {
-				if isSym(e) {
+				if _, isByte := e.(byte); !isByte {
 					sym = true
 					break
 				}
